@@ -131,6 +131,8 @@ Section Model.
     if box_int_m N t1 t2 ts te then box_int_val N (box_int_lo N t1 ts) (box_int_hi N t2 te)
     else nzero N.
   Definition gauss_integral (ts te sg t1 t2 : T) : T :=
+    let t1 := ga_int_clip1 N t1 ts te in        (* clipped to the support window *)
+    let t2 := ga_int_clip2 N t2 ts te in
     let t0 := ga_int_t0 N ts te in
     let c1 := ga_int_c1 N sg in
     let c2 := ga_int_c2 N sg in
